@@ -153,6 +153,10 @@ enum Op {
     /// read again WITHOUT a new fetch (true: read(), false: read_iter()): the reader still holds
     /// the last fetched interval, so the same slice must come back
     Again(bool),
+    /// a fetch that must fail (true: unknown name, false: record number out of range) carrying
+    /// an interval of its own; whatever the reader does afterwards, it must not hand out a slice
+    /// that no successful fetch asked for
+    BadFetch(bool, u64, u64),
 }
 
 fn history_check(cfg: &FileCfg, sched: &Schedule, ops: &[Op], cc: &mut CaseCtx) {
@@ -174,6 +178,10 @@ fn history_check(cfg: &FileCfg, sched: &Schedule, ops: &[Op], cc: &mut CaseCtx) 
                         rd.read_iter().and_then(|it| it.collect::<std::io::Result<Vec<u8>>>())
                     };
                     outs.push(r.map_err(|e| e.to_string()));
+                }
+                Op::BadFetch(by_name, start, stop) => {
+                    let r = if *by_name { rd.fetch("no-such-record", *start, *stop) } else { rd.fetch_by_rid(cfg.lens.len() + 3, *start, *stop) };
+                    outs.push(r.map(|_| b"fetch accepted".to_vec()).map_err(|e| e.to_string()));
                 }
                 Op::Q(q) => outs.push(run_query(&mut rd, q, cfg).map_err(|e| e.to_string())),
                 Op::Partial(q, k) => {
@@ -200,8 +208,25 @@ fn history_check(cfg: &FileCfg, sched: &Schedule, ops: &[Op], cc: &mut CaseCtx) 
         Ok(outs) => {
             cc.outcome(&outs);
             let mut fetched: Option<Vec<u8>> = None;
+            let mut after_bad_fetch = false;
             for (i, (op, out)) in ops.iter().zip(&outs).enumerate() {
+                if let Op::BadFetch(..) = op {
+                    if out.is_ok() {
+                        cc.violation("C12/history/bad-fetch-accepted", format!("operation #{} (fetch of an unknown record) returned Ok", i));
+                        return;
+                    }
+                    after_bad_fetch = true;
+                    continue;
+                }
+                if let (Op::Again(_), true, Err(_)) = (op, after_bad_fetch, out) {
+                    // refusing to read after a failed fetch is as good as keeping the old interval
+                    continue;
+                }
+                if !matches!(op, Op::Again(_)) {
+                    after_bad_fetch = false;
+                }
                 let want = match op {
+                    Op::BadFetch(..) => unreachable!(),
                     Op::Q(q) => {
                         let w = seqs[q.rec][q.start as usize..q.stop as usize].to_vec();
                         fetched = Some(w.clone());
@@ -429,6 +454,8 @@ fn history_ops(cfg: &FileCfg) -> Vec<Op> {
     v.push(Op::Partial(qs[0].clone(), (a / 2) as usize + 1));
     v.push(Op::Again(true));
     v.push(Op::Again(false));
+    v.push(Op::BadFetch(true, 1.min(a), a));
+    v.push(Op::BadFetch(false, 0, (a / 2).max(1)));
     v
 }
 
